@@ -22,6 +22,9 @@ Local Open Scope list_scope.
    flips a flag when the corresponding fix commit lands in /repo *)
 Definition code_fixed_F21 := false.
 Definition code_fixed_F22 := false.
+Definition code_fixed_N1 := false.
+Definition code_fixed_N2 := false.
+Definition code_fixes : fixes := mkFix code_fixed_F21 code_fixed_F22 code_fixed_N1 code_fixed_N2.
 
 (* ---------- float64 bit patterns ----------------------------------------- *)
 
@@ -162,6 +165,34 @@ Fixpoint strs_eqb (a b : list string) : bool :=
 Definition csv_ok (st : list string) (es : list snap) (csv : list string) : bool :=
   strs_eqb st (firstn (List.length st) csv) && csv_rows_ok es (skipn (List.length st) csv).
 
+(* the CSV line against the REPORTED accessor values (printing only): each
+   printed field is the "%f" rendering of the float the accessor returns *)
+Definition csv_f (o : fval) (f : string) : bool :=
+  match parse_dec f, o with
+  | Some FNaN, FNaN => true
+  | Some (FInf a), FInf b => Bool.eqb a b
+  | Some (FNum p), FNum q => qabs_le p q csv_ulp
+  | _, _ => false
+  end.
+
+Definition csv_orow_ok (o : osnap) (fs : list string) : bool :=
+  match fs with
+  | [fmin; fmax; favg; fsum; fdev] =>
+      csv_f (decode (o_min o)) fmin && csv_f (decode (o_max o)) fmax &&
+      csv_f (decode (o_avg o)) favg && csv_f (decode (o_sum o)) fsum &&
+      csv_f (decode (o_dev o)) fdev
+  | _ => false
+  end.
+
+Fixpoint csv_orows_ok (os : list osnap) (fs : list string) : bool :=
+  match os with
+  | [] => match fs with [] => true | _ => false end
+  | o :: r => csv_orow_ok o (firstn 5 fs) && csv_orows_ok r (skipn 5 fs)
+  end.
+
+Definition csv_obs_ok (st : list string) (os : list osnap) (csv : list string) : bool :=
+  strs_eqb st (firstn (List.length st) csv) && csv_orows_ok os (skipn (List.length st) csv).
+
 (* ---------- agree: model vs observation ----------------------------------- *)
 
 Fixpoint rows_agree (m : list (string * snap)) (o : list (string * osnap)) : bool :=
@@ -192,7 +223,7 @@ Fixpoint outs_agree (m : list out) (o : list oout) : bool :=
   end.
 
 Definition model (c : case) : list out :=
-  match c with Case st ops _ => run_outs code_fixed_F21 code_fixed_F22 st ops end.
+  match c with Case st ops _ => run_outs code_fixes st ops end.
 
 Definition agree (c : case) : bool :=
   match c with Case _ _ obs => outs_agree (model c) obs end.
@@ -336,8 +367,8 @@ Definition exact_rows (r : recs) : list snap :=
 (* clause numbers
    1..6  count / min / max / sum / mean / sample deviation of a reported measure
          differ from the statistics of the values recorded for it
-   7     CSV header or values line does not carry those statistics
-         (columns missing, misplaced, or a printed number off)
+   7     CSV header does not name the recorded measures in order, or the values
+         line does not carry the reported statistics in those columns
    8     a bucket does not hold exactly the measures of the hosts its ranges name
          (measure missing or foreign, bucket missing)
    9     a result set reports a measure that was never recorded for it, or misses one
@@ -361,7 +392,7 @@ Definition ocheck (st : list (string * string)) (s : sstate) (o : op) (ob : oout
         match nth_error (s_objs s) i with
         | Some (Some r) =>
             rows_check (if is_bucket_obj s i then 8 else 9) (keys_of r) r rows ++
-            clause 7 (csv_ok (map snd st) (exact_rows r) csv)
+            clause 7 (csv_obs_ok (map snd st) (map snd rows) csv)
         | _ => []
         end
     | OGet idx, ObsGet found rows =>
